@@ -270,3 +270,400 @@ def ctx(n, content, constructed=False):
 
 def uni(n, content, constructed=False):
     return tag_octets(n * 4, constructed) + len_octets(len(content)) + content
+
+
+# ---------------------------------------------------------------- long SET OF values (`lset` of moddrv_c06.inc)
+
+M64 = (1 << 64) - 1
+
+
+def lset_values(n, a, b, m, order):
+    """the member values of `lset <T> <elem> n a b m <order>` in memory order (same arithmetic as the C)"""
+    v = [((a * k + b) & M64) % m for k in range(n)]
+    if order == "gen":
+        return v
+    v.sort()
+    if order == "asc":
+        return v
+    if order == "desc":
+        v.reverse()
+        return v
+    if order.startswith("rot:"):
+        r = int(order[4:]) % n if n else 0
+        return v[r:] + v[:r]
+    if order.startswith("shuf:"):
+        x = int(order[5:]) & M64
+        for i in range(n - 1, 0, -1):
+            x = (x * 6364136223846793005 + 1442695040888963407) & M64
+            j = (x >> 33) % (i + 1)
+            v[i], v[j] = v[j], v[i]
+        return v
+    raise ValueError(order)
+
+
+def lset_member(elem, v):
+    """python value (lib/modgen.py form) of one member"""
+    if elem == "int":
+        return v
+    if elem == "bool":
+        return bool(v & 1)
+    if elem.startswith("oct:"):
+        return v.to_bytes(int(elem[4:]), "big")
+    if elem.startswith("ostr:"):
+        f = int(elem[5:])
+        return bytes((f + 3 * i) & 0xff for i in range(v))
+    raise ValueError(elem)
+
+
+def lset_model_value(elem, vals):
+    """the value string of drv_rt.ml without building a python tree (long lists)"""
+    if elem == "int":
+        return "L{" + "".join("I%d;" % x for x in vals) + "}"
+    if elem == "bool":
+        return "L{" + "".join("T" if x & 1 else "F" for x in vals) + "}"
+    return "L{" + "".join("O%s;" % lset_member(elem, x).hex() for x in vals) + "}"
+
+
+def oer_quantity(n):
+    b = n.to_bytes(max(1, (n.bit_length() + 7) // 8), "big")
+    return bytes([len(b)]) + b
+
+
+def oer_length(n):
+    if n <= 127:
+        return bytes([n])
+    b = n.to_bytes((n.bit_length() + 7) // 8, "big")
+    return bytes([0x80 | len(b)]) + b
+
+
+def lset_coer(elem, fixed_size, vals):
+    """OER of the list with the members in the order given (what SET_OF_encode_oer writes): the quantity, then
+    INTEGER (0..255) = one octet, BOOLEAN = 00/ff, OCTET STRING = (length unless the size is fixed) octets"""
+    out = [oer_quantity(len(vals))]
+    for x in vals:
+        if elem == "int":
+            out.append(bytes([x]))
+        elif elem == "bool":
+            out.append(b"\xff" if x & 1 else b"\0")
+        else:
+            c = lset_member(elem, x)
+            out.append(c if fixed_size else oer_length(len(c)) + c)
+    return b"".join(out)
+
+
+def par_lines(binary, batches, env=None, unlimited_stack=False, timeout=1500, workdir=None):
+    """run several batches of command lines through separate processes of one line-protocol driver at the same
+    time (files, no threads, no preexec_fn); returns a list of (rc, output lines, stderr tail) per batch"""
+    import subprocess, tempfile, os
+    d = tempfile.mkdtemp(prefix="c06par.", dir=workdir)
+    procs = []
+    for i, lines in enumerate(batches):
+        fin, fout, ferr = (os.path.join(d, "%s%d" % (x, i)) for x in ("in", "out", "err"))
+        with open(fin, "w") as f:
+            f.write("\n".join(lines) + "\n")
+        cmd = "%sexec '%s' < '%s' > '%s' 2> '%s'" % ("ulimit -s unlimited 2>/dev/null; " if unlimited_stack else "", binary, fin, fout, ferr)
+        procs.append((fout, ferr, subprocess.Popen(["bash", "-c", cmd], env=env) if lines else None))
+    res = []
+    for fout, ferr, p in procs:
+        if p is None:
+            res.append((0, [], ""))
+            continue
+        rc = p.wait(timeout=timeout)
+        out = open(fout, errors="replace").read().split("\n")
+        if out and out[-1] == "":
+            out.pop()
+        res.append((rc, out, open(ferr, errors="replace").read()[-4000:]))
+    import shutil
+    shutil.rmtree(d, ignore_errors=True)
+    return res
+
+
+def spread(items, nproc, cost=lambda x: 1):
+    """indices of items distributed over nproc batches, heaviest first"""
+    order = sorted(range(len(items)), key=lambda i: -cost(items[i]))
+    batches = [[] for _ in range(nproc)]
+    load = [0] * nproc
+    for i in order:
+        j = load.index(min(load))
+        batches[j].append(i)
+        load[j] += cost(items[i])
+    return [sorted(b) for b in batches]
+
+
+# ---------------------------------------------------------------- DEFAULT in extension additions: types and groups
+
+ENUM3 = "ENUMERATED { red(0), grn(1), blu(2) }"
+
+
+def dmember(name, kind, default=None, optional=False, ext=False, con=None, grp=None):
+    """kind: int | bool | enum;  default: python value or None;  con: (lo, hi) for int; grp: version-bracket number"""
+    return {"name": name, "kind": kind, "default": default, "optional": optional, "ext": ext, "con": con, "grp": grp}
+
+
+def dtype_text(tn, ms):
+    parts, i, in_ext, cur_grp = [], 0, False, None
+    for m in ms:
+        t = {"int": "INTEGER", "bool": "BOOLEAN", "enum": ENUM3}[m["kind"]]
+        if m["con"]:
+            t += " (%d..%d)" % m["con"]
+        if m["default"] is not None:
+            d = m["default"]
+            t += " DEFAULT " + ({True: "TRUE", False: "FALSE"}[d] if m["kind"] == "bool" else ("red", "grn", "blu")[d] if m["kind"] == "enum" else str(d))
+        elif m["optional"]:
+            t += " OPTIONAL"
+        pre = ""
+        if m["ext"] and not in_ext:
+            pre = "..., "
+            in_ext = True
+        if m["grp"] != cur_grp:
+            if cur_grp is not None:
+                parts[-1] += " ]]"
+            if m["grp"] is not None:
+                pre += "[[ "
+            cur_grp = m["grp"]
+        parts.append(pre + "%s %s" % (m["name"], t))
+    if cur_grp is not None:
+        parts[-1] += " ]]"
+    return "  %s ::= SEQUENCE { %s }" % (tn, ", ".join(parts))
+
+
+def dvalue_octets(m, v, form=None):
+    if m["kind"] == "bool":
+        return (form or b"\xff") if v else b"\0"
+    return int_octets(v)
+
+
+def dnondefault(m, rng):
+    """a value of the member different from its DEFAULT"""
+    if m["kind"] == "bool":
+        return not m["default"] if m["default"] is not None else rng.chance(1, 2)
+    if m["kind"] == "enum":
+        return rng.choice([x for x in (0, 1, 2) if x != m["default"]])
+    lo, hi = m["con"] if m["con"] else (-70000, 70000)
+    pool = [x for x in (lo, hi, 0, 1, 5, 6, 7, 127, 128, 255, 256, -1, -128, 300) if lo <= x <= hi and x != m["default"]]
+    return rng.choice(pool)
+
+
+def dgroups(tn, ms, rng, max_abs=6):
+    """groups of BER inputs (AUTOMATIC TAGS: member i has the tag [i]) that denote one abstract value and differ in
+    which components equal to their DEFAULT are spelled out.  The first input of a group spells none.
+    -> (tn, kind, [inputs], info) with info = {"value":..., "ff": indices of inputs that write a DEFAULT TRUE as ff}"""
+    dms = [i for i, m in enumerate(ms) if m["default"] is not None]
+    # abstract values: every default-bearing member at its DEFAULT; exactly one away from it; all away; random mixes
+    patterns = [frozenset()] + [frozenset([i]) for i in dms] + [frozenset(dms)]
+    while len(patterns) < max_abs and len(dms) > 1:
+        patterns.append(frozenset(i for i in dms if rng.chance(1, 2)))
+    out, seen = [], set()
+    for away in patterns:
+        if away in seen:
+            continue
+        seen.add(away)
+        val = {}
+        for i, m in enumerate(ms):
+            if m["default"] is not None:
+                val[i] = dnondefault(m, rng) if i in away else m["default"]
+            elif m["optional"]:
+                val[i] = dnondefault(m, rng) if rng.chance(1, 2) else None
+            else:
+                val[i] = dnondefault(m, rng)
+        at_default = [i for i in dms if i not in away]
+        inputs, ff, descr, assign = [], set(), [], []
+        subsets = [()]
+        for r in range(1, len(at_default) + 1):
+            subsets += list(itertools.combinations(at_default, r))
+        for sub in subsets:
+            for true_form in ((b"\x01", b"\xff") if any(ms[i]["kind"] == "bool" and ms[i]["default"] is True for i in sub) else (b"\x01",)):
+                body = b""
+                stored = {}
+                for i, m in enumerate(ms):
+                    v = val[i]
+                    if v is None or (i in at_default and i not in sub):
+                        continue
+                    form = true_form if (m["kind"] == "bool" and i in sub) else None
+                    body += ctx(i, dvalue_octets(m, v, form))
+                    stored[i] = v
+                assign.append(stored)
+                if true_form == b"\xff":
+                    ff.add(len(inputs))
+                inputs.append(uni(16, body, True))
+                descr.append("+".join(ms[i]["name"] for i in sub) or "-")
+        ext_explicit = any(ms[i]["ext"] for i in at_default)
+        kind = "default-ext" if ext_explicit else "default-root"
+        if len(inputs) < 2:
+            continue
+        out.append((tn, kind, inputs, {"value": {ms[i]["name"]: val[i] for i in val}, "ff": ff, "spelled": descr, "assign": assign, "ms": ms}))
+    return out
+
+
+def dx_directed():
+    """the directed types: a DEFAULT in an extension addition alone / with other additions / in version brackets /
+    together with a root DEFAULT; DEFAULT 0 and FALSE (asn1c keeps those members inline) and others (pointer)"""
+    z = dmember("z", "bool")
+    return [
+        ("X1", [z, dmember("j", "int", 7, ext=True, con=(0, 255))]),
+        ("X2", [z, dmember("k", "int", 0, ext=True)]),
+        ("X3", [z, dmember("f", "bool", False, ext=True), dmember("t", "bool", True, ext=True)]),
+        ("X4", [z, dmember("a", "int", 5, ext=True), dmember("o", "int", optional=True, ext=True), dmember("e", "enum", 1, ext=True)]),
+        ("X5", [z, dmember("a", "int", 5, ext=True, grp=1), dmember("b", "bool", False, ext=True, grp=1), dmember("c", "int", 3, ext=True, con=(0, 7))]),
+        ("X6", [dmember("r", "int", 1), z, dmember("a", "int", 1, ext=True), dmember("m", "bool", ext=True, optional=True)]),
+        ("X7", [dmember("r", "int", 0, con=(0, 255)), dmember("q", "bool", True), z, dmember("k", "int", 0, ext=True, con=(0, 255)), dmember("n", "int", -1, ext=True),
+                dmember("e", "enum", 0, ext=True)]),
+    ]
+
+
+def dx_random(rng, i):
+    ms = []
+    for j in range(rng.below(3)):
+        ms.append(dx_random_member(rng, "r%d" % j, False))
+    ms.append(dmember("z", "bool"))
+    for j in range(1 + rng.below(4)):
+        ms.append(dx_random_member(rng, "x%d" % j, True))
+    if not any(m["default"] is not None and m["ext"] for m in ms):
+        ms.append(dmember("xd", "int", rng.choice([0, 1, 5, 255]), ext=True))
+    return ("R%d" % i, ms)
+
+
+def dx_random_member(rng, name, ext):
+    kind = rng.choice(["int", "int", "cint", "bool", "enum"])
+    what = rng.choice(["default", "default", "optional"])
+    if kind == "cint":
+        con = rng.choice([(0, 255), (0, 7), (-5, 5), (0, 65535), (1, 100)])
+        d = rng.choice([con[0], con[1], (con[0] + con[1]) // 2]) if what == "default" else None
+        return dmember(name, "int", d, optional=(what == "optional"), ext=ext, con=con)
+    if kind == "int":
+        d = rng.choice([0, 1, 5, -1, 127, 128, 300, -129]) if what == "default" else None
+        return dmember(name, "int", d, optional=(what == "optional"), ext=ext)
+    if kind == "bool":
+        d = rng.chance(1, 2) if what == "default" else None
+        return dmember(name, "bool", d, optional=(what == "optional"), ext=ext)
+    d = rng.below(3) if what == "default" else None
+    return dmember(name, "enum", d, optional=(what == "optional"), ext=ext)
+
+
+def dx_module(types, name="D-DX"):
+    return name + " DEFINITIONS AUTOMATIC TAGS ::= BEGIN\n" + "\n".join(dtype_text(tn, ms) for tn, ms in types) + "\nEND\n"
+
+
+# ---------------------------------------------------------------- SET OF over members with different leading tags
+
+SANY = """S-ANY DEFINITIONS AUTOMATIC TAGS ::= BEGIN
+  TA   ::= SET OF ANY
+  TX   ::= SET OF CHOICE { i INTEGER, s UTF8String, e ENUMERATED { a(0), b(1) }, b BIT STRING, n NULL, q SEQUENCE { x INTEGER OPTIONAL } }
+  TY   ::= SET OF CHOICE { u INTEGER, a [APPLICATION 1] INTEGER, c [1] INTEGER, p [PRIVATE 1] INTEGER, h [PRIVATE 1000] INTEGER }
+  TS   ::= SEQUENCE { n INTEGER, m SET OF ANY }
+END
+"""
+SANY_TYPES = ["TA", "TX", "TY", "TS"]
+
+
+def tl(tagbytes, content):
+    return bytes(tagbytes) + len_octets(len(content)) + content
+
+
+def sany_pools():
+    """member TLVs per type: different classes, tag lengths, content lengths; members whose contents are prefixes of
+    another's; first octets 0x80 and more apart"""
+    any_pool = [tl([0x02], b"\x05"), tl([0x82], b"\x05"), tl([0xc1], b"\x05"), tl([0x80], b"\x05"), tl([0x04], b"\x00\x80"), tl([0x04], b"\x00"),
+                tl([0x04], b""), tl([0x30], tl([0x02], b"\x01")), tl([0x9f, 0x1f], b"\x00"), tl([0xdf, 0x87, 0x68], b"\x05"), tl([0x02], b"\x00\x80"),
+                tl([0x02], b"\x7f"), tl([0x41], b"\x05"), tl([0x0c], b"ab"), tl([0x0c], b"a"), tl([0x04], bytes(range(130))), tl([0x04], bytes(range(127)))]
+    tx_pool = [ctx(0, b"\x05"), ctx(0, b"\x00\x80"), ctx(1, b"a"), ctx(1, b"ab"), ctx(1, b""), ctx(2, b"\x01"), ctx(3, b"\x04\xa0"), ctx(3, b"\x00"), ctx(4, b""),
+               ctx(5, b"", True), ctx(5, ctx(0, b"\x07"), True), ctx(0, b"\x80"), ctx(1, b"\xc3\xa9")]
+    ty_pool = [tl([0x02], b"\x05"), tl([0x41], b"\x05"), tl([0x81], b"\x05"), tl([0xc1], b"\x05"), tl([0xdf, 0x87, 0x68], b"\x05"), tl([0x02], b"\x00\x80"),
+               tl([0x81], b"\x80"), tl([0xc1], b"\x01\x00"), tl([0x02], b"\x05")]
+    return {"TA": any_pool, "TX": tx_pool, "TY": ty_pool}
+
+
+def sany_groups(rng, tier):
+    """(type, "setof-perm", [BER inputs = the same members in different orders], info)"""
+    pools = sany_pools()
+    out = []
+    directed = {"TA": [[0, 1], [0, 1, 2], [0, 3, 2], [5, 6, 4], [8, 9, 0, 12], [13, 14], [15, 16, 6]],
+                "TX": [[0, 1], [2, 3, 4], [7, 8, 9, 10], [0, 11]],
+                "TY": [[0, 2], [0, 2, 3], [0, 1, 2, 3], [4, 3, 0], [5, 6, 7, 8]]}
+    nrand = 3 if tier == "quick" else 12
+    for tn, pool in pools.items():
+        picks = [list(p) for p in directed[tn]]
+        for _ in range(nrand):
+            k = 2 + rng.below(6)
+            picks.append([rng.below(len(pool)) for _ in range(k)])
+        for p in picks:
+            members = [pool[i] for i in p]
+            if len(members) <= 3:
+                orders = [list(q) for q in itertools.permutations(range(len(members)))]
+            else:
+                orders = [list(range(len(members))), list(reversed(range(len(members)))), list(range(1, len(members))) + [0]]
+                for _ in range(3):
+                    q = list(range(len(members)))
+                    rng.shuffle(q)
+                    orders.append(q)
+            inputs = [uni(17, b"".join(members[i] for i in q), True) for q in orders]
+            out.append((tn, "setof-perm", inputs, {"members": [m.hex() for m in members]}))
+            if tn == "TA":
+                out.append(("TS", "setof-perm", [uni(16, ctx(0, b"\x01") + ctx(1, b"".join(members[i] for i in q), True), True) for q in orders],
+                            {"members": [m.hex() for m in members]}))
+    return out
+
+
+def dx_vstr(m, v):
+    return ("T" if v else "F") if m["kind"] == "bool" else "I%d;" % v
+
+
+def dx_model(ms):
+    """(ety, dfl root, dfl adds) strings of ocaml/drv_c06.ml for a generated type: AUTOMATIC TAGS give member i the tag [i];
+    an ENUMERATED { red(0), grn(1), blu(2) } is written as INTEGER (0..2) (same tag, same DER / UPER / OER octets)"""
+    def tstr(i, m):
+        tg = i * 4 + 2
+        if m["kind"] == "bool":
+            return "b%d" % tg
+        if m["kind"] == "enum":
+            return "i%d[0,2,0]" % tg
+        lo, hi = m["con"] if m["con"] else ("*", "*")
+        return "i%d[%s,%s,0]" % (tg, lo, hi)
+    root = [(i, m) for i, m in enumerate(ms) if not m["ext"]]
+    adds = [(i, m) for i, m in enumerate(ms) if m["ext"]]
+    ety = "E64{%s}{%s}" % ("".join(("?" if (m["default"] is not None or m["optional"]) else "") + tstr(i, m) for i, m in root),
+                            "".join(tstr(i, m) for i, m in adds))
+    d = lambda part: "{" + "".join(dx_vstr(m, m["default"]) if m["default"] is not None else "_" for i, m in part) + "}"
+    return ety, d(root), d(adds)
+
+
+def dx_model_value(ms, stored):
+    """the structure as stored: S{root members, then _ / !val per addition}"""
+    out = []
+    for i, m in enumerate(ms):
+        omissible = m["ext"] or m["default"] is not None or m["optional"]
+        if i in stored:
+            out.append(("!" if omissible else "") + dx_vstr(m, stored[i]))
+        else:
+            out.append("_")
+    return "S{" + "".join(out) + "}"
+
+
+# ---------------------------------------------------------------- the fragment loop with a parameter (spec side, python)
+
+def py_pad_key(bits):
+    b = bits + "0" * (-len(bits) % 8)
+    return bytes(int(b[i:i + 8], 2) for i in range(0, len(b), 8))
+
+
+def py_len_det(n):
+    return format(n, "08b") if n <= 127 else format(n + 32768, "016b")
+
+
+def py_fragments(K, items, sort_each=False):
+    """X.691 11.9 with the fragment unit K instead of 16K; items = bit strings; sort_each: every fragment sorted on its own"""
+    srt = lambda l: sorted(l, key=py_pad_key)
+    if not sort_each:
+        items = srt(items)
+    out = ""
+    while True:
+        n = len(items)
+        if n < K:
+            part = srt(items) if sort_each else items
+            return out + py_len_det(n) + "".join(part)
+        m = min(n // K, 4)
+        part = items[:m * K]
+        if sort_each:
+            part = srt(part)
+        out += format(192 + m, "08b") + "".join(part)
+        items = items[m * K:]
